@@ -10,6 +10,8 @@
 (*        the value is whatever the field holds at that moment)            *)
 (*   WM x / RM x (x is bound to a fresh object; a METHOD of the object in  *)
 (*        x is called and tells which object it ran on)                    *)
+(*   WN x / RN x (x is bound to a fresh FUNCTION value - a closure; the rule *)
+(*        calls the function held in x and the closure tells which one ran) *)
 (*   P    (a fault that only the rule-level recover catches: the execution *)
 (*        fails there)                                                     *)
 (*   CW x (a conc block with a slow assignment to local x and a sibling    *)
@@ -41,7 +43,7 @@ NextOp(e) == prog[ex[e].rule][ex[e].pc + 1]
 HasNext(e) == ex[e].pc < Len(prog[ex[e].rule])
 Stuck(e) == /\ ~ex[e].ended
             /\ \/ ex[e].failed
-               \/ /\ HasNext(e) /\ NextOp(e).k \in {"R", "RM"}
+               \/ /\ HasNext(e) /\ NextOp(e).k \in {"R", "RM", "RN"}
                   /\ NextOp(e).name \notin DOMAIN ex[e].store
                \/ /\ HasNext(e) /\ NextOp(e).k = "RP" /\ ex[e].req \notin DOMAIN pin
                   /\ NextOp(e).name \notin DOMAIN ex[e].store
@@ -66,10 +68,10 @@ EStartCore(e, r, q) ==
 EOpCore(e, i, val) ==
   /\ e \in DOMAIN ex /\ ~ex[e].ended /\ ~ex[e].failed /\ HasNext(e) /\ i = ex[e].pc + 1
   /\ LET op == NextOp(e) IN
-     CASE op.k \in {"W", "FR", "CW", "WF", "WM"}
+     CASE op.k \in {"W", "FR", "CW", "WF", "WM", "WN"}
                       -> /\ ex' = [ex EXCEPT ![e].pc = i, ![e].store = (op.name :> val) @@ @]
                          /\ UNCHANGED <<inj, pin>>
-       [] op.k \in {"R", "RM"}
+       [] op.k \in {"R", "RM", "RN"}
                       -> /\ op.name \in DOMAIN ex[e].store
                          /\ val = ex[e].store[op.name]
                          /\ ex' = [ex EXCEPT ![e].pc = i]
@@ -151,8 +153,8 @@ LSpec == LInit /\ [][LNext]_lvars
 ReadsOwnWrites ==
   \A j \in DOMAIN lh : lh[j].k = "R" =>
      \E w \in 1..(j-1) :
-        /\ lh[w].k \in {"W", "FR", "CW", "WF", "WM"} /\ lh[w].e = lh[j].e /\ lh[w].name = lh[j].name /\ lh[w].val = lh[j].val
-        /\ \A m \in (w+1)..(j-1) : ~(lh[m].k \in {"W", "FR", "CW", "WF", "WM"} /\ lh[m].e = lh[j].e /\ lh[m].name = lh[j].name)
+        /\ lh[w].k \in {"W", "FR", "CW", "WF", "WM", "WN"} /\ lh[w].e = lh[j].e /\ lh[w].name = lh[j].name /\ lh[w].val = lh[j].val
+        /\ \A m \in (w+1)..(j-1) : ~(lh[m].k \in {"W", "FR", "CW", "WF", "WM", "WN"} /\ lh[m].e = lh[j].e /\ lh[m].name = lh[j].name)
 StartUndefined ==
   \A e \in DOMAIN ex : ex[e].pc = 0 => ex[e].store = <<>>
 SharedInjected ==
